@@ -153,12 +153,20 @@ theorem node_mode_is_edge_mode_on_expansion (inp : NodeFlowInput) (lp : LP) (hc 
     lp = kfdLP (expandInput inp) :=
   NX.node_mode_is_edge_mode_on_expansion inp lp hc hef h
 
-/-- the node branch accepts every input with at least one node, known ignored nodes, and non-empty
-node constraints over known nodes -/
+/-- node mode accepts every input in which some node carries the attribute and is not ignored, `k > 0`,
+ignored nodes are known, and the (node-form) constraints are non-empty lists of known nodes -/
 theorem node_mode_accepts (inp : NodeFlowInput) (l : List (List Node)) (hcs : inp.constraints = .nodes l)
-    (hn : inp.ng.g.nodes ≠ []) (hl : ∀ c ∈ l, c ≠ [] ∧ ∀ v ∈ c, v ∈ inp.ng.g.nodes)
+    (hc : Closed inp.ng.g) (hk : inp.k ≠ 0)
+    (hact : ∃ v ∈ inp.ng.g.nodes, inp.ng.hasFlow v = true ∧ v ∉ inp.ignoreNodes)
+    (hl : ∀ c ∈ l, c ≠ [] ∧ ∀ v ∈ c, v ∈ inp.ng.g.nodes)
     (hi : ∀ v ∈ inp.ignoreNodes, v ∈ inp.ng.g.nodes) : ∃ lp, kfdNodeLP inp = .ok lp :=
-  NX.node_mode_accepts inp l hcs hn hl hi
+  NX.node_mode_accepts inp l hcs hc hk hact hl hi
+
+/-- what an accepted input satisfies: the translation succeeded, some expanded edge is left to be
+explained ("All edges are ignored" is a `ValueError` since fix 1731a87) and `k > 0` -/
+theorem node_mode_accepted_has_active (inp : NodeFlowInput) (fi : FlowInput) (h : kfdNodeInternal inp = .ok fi) :
+    kfdNodeTranslate inp = .ok fi ∧ fi.activeEdges ≠ [] ∧ fi.cfg.k ≠ 0 :=
+  NX.kfdNodeInternal_ok h
 
 /-! ## witnesses and non-vacuity -/
 
@@ -195,19 +203,25 @@ def exInp : NodeFlowInput :=
 
 /-- the hypotheses of `node_mode_is_edge_mode_on_expansion` are satisfiable: the node branch accepts `exInp` -/
 example : ∃ lp, kfdNodeLP exInp = .ok lp ∧ lp = kfdLP (expandInput exInp) := by
-  obtain ⟨lp, h⟩ := node_mode_accepts exInp [["a", "a.0"]] rfl (by decide) (by decide) (by decide)
-  refine ⟨lp, h, node_mode_is_edge_mode_on_expansion exInp lp ?_ ?_ h⟩
-  · intro e he
+  have hc : Closed exInp.ng.g := by
+    intro e he
     have : e = ("a", "a.0") ∨ e = ("a.0", "x.1.0") := by simpa [exInp, exG] using he
     rcases this with rfl | rfl <;> decide
+  obtain ⟨lp, h⟩ := node_mode_accepts exInp [["a", "a.0"]] rfl hc (by decide)
+    ⟨"a", by decide, by decide, by decide⟩ (by decide) (by decide)
+  refine ⟨lp, h, node_mode_is_edge_mode_on_expansion exInp lp hc ?_ h⟩
   · intro p hp
     have : p = (("a", "a.0"), 7) := by simpa [exInp] using hp
     subst this; decide
 
 /-- … and the two input records really differ (ignore list and values), so the equality has content -/
-example : (kfdNodeInternal exInp).toOption.map (·.ignore.length) = some 4 ∧
+example : (kfdNodeTranslate exInp).toOption.map (·.ignore.length) = some 4 ∧
     (expandInput exInp).ignore.length = 4 ∧
-    (kfdNodeInternal exInp).toOption.map (·.flow.length) = some 3 ∧ (expandInput exInp).flow.length = 2 := by
+    (kfdNodeTranslate exInp).toOption.map (·.flow.length) = some 3 ∧ (expandInput exInp).flow.length = 2 := by
   decide
+
+/-- ignoring every node that carries a value is rejected, as the repaired constructor does -/
+example : kfdNodeInternal { exInp with ignoreNodes := ["a", "a.0"] } = .error "allignored" ∧
+    (kfdNodeTranslate { exInp with ignoreNodes := ["a", "a.0"] }).toBool = true := ⟨rfl, rfl⟩
 
 end FP.Props.C11
